@@ -84,6 +84,31 @@ def main(argv=None):
         return 2
 
 
+def replay_in_child(ctx, mod, v):
+    '''Replays one violation in a forked child, so that process-wide state of the code under test left behind by an
+    earlier replay (caches, parser state) cannot mask or fake it.  -> True when the same signature shows again.'''
+    from mc import core
+    r, w = os.pipe()
+    pid = os.fork()
+    if pid == 0:
+        code = 1
+        try:
+            os.close(r)
+            c2 = core.Ctx(ctx.prop, ctx.tier, ctx.seed)
+            mod.replay(c2, json.loads(json.dumps(v['case'], default=repr)))
+            code = 0 if any(x['sig'] == v['sig'] for x in c2.violations) else 1
+        except BaseException:
+            if os.environ.get('VERIF_DEBUG'):
+                traceback.print_exc()
+            code = 1
+        finally:
+            os._exit(code)
+    os.close(w)
+    os.close(r)
+    _, status = os.waitpid(pid, 0)
+    return os.WIFEXITED(status) and os.WEXITSTATUS(status) == 0
+
+
 def finish(ctx, mod, replaying=False, no_evidence=False):
     from mc import core
     known = core.load_known(ctx.prop)
@@ -104,12 +129,10 @@ def finish(ctx, mod, replaying=False, no_evidence=False):
             # (retried: code under test may depend on object addresses, e.g. iteration over a set of instances)
             reproduced = False
             for attempt in range(8):
-                c2 = core.Ctx(ctx.prop, ctx.tier, ctx.seed)
-                mod.replay(c2, json.loads(json.dumps(v['case'], default=repr)))
-                if any(w['sig'] == v['sig'] for w in c2.violations):
+                junk = [object() for _ in range(1 + 37 * attempt)]   # shift allocation addresses between attempts
+                if replay_in_child(ctx, mod, v):
                     reproduced = True
                     break
-                junk = [object() for _ in range(1 + 37 * attempt)]   # shift allocation addresses between attempts
             if not reproduced:
                 sys.stderr.write('HARNESS ERROR: violation %s did not reproduce on '
                                  'replay: %s\n' % (v['sig'], json.dumps(v['case'], default=repr)[:2000]))
